@@ -8,8 +8,9 @@ META = {
     'technique': 'Coq proof (content conservation + flush reaches every sink, by nested induction over the handler tree, '
                  'for every history and every buffering policy) instantiated at the flush structure translated from the '
                  'source + child processes of the real library killed by qFatal/SIGKILL compared with the extracted model',
-    'text': 'Theorems (Properties_C11.v): for every handler tree of the synchronous logger, every history and every QFile '
-            'buffering policy, after qFatal the file of every file sink = previous content + all records + the fatal one; '
+    'text': 'Theorems (Properties_C11.v): for every handler tree of the synchronous logger (file sinks, filters, nested pipelines, '
+            'a sink on a full device), every history and every QFile buffering policy, after qFatal the file of every healthy '
+            'file sink = previous content + every record that passed the filters in front of it (the fatal one iff it passes); '
             're-checked on every run against where/when Logger::processMessage flushes, what recursiveFlush reaches and what '
             'FileSink::flush does as read from the source; the real library is run in child processes that die by SIGABRT '
             '(and by SIGKILL without a fatal message, to validate the buffering model) and the files are compared with the '
@@ -26,11 +27,16 @@ META = {
     'engine': 'coq+extraction+harness',
 }
 
-MODEL_TREE = {'ONE': 'oooF', 'ONER': 'oooR', 'FLU': 'oFR', 'FLUN': 'oF(F)'}
+MODEL_TREE = {'ONE': 'oooF', 'ONER': 'oooR', 'FLU': 'oFR', 'FLUN': 'oF(F)', 'FLUT': 'o(gF)F', 'FLUC': 'o(yR)F', 'FLUB': 'oBF'}
 KIND_NAMES = {'oF': 'plain', 'oR': 'rotating', 'oFR': 'both', 'o(F)': 'nested', 'oF(oR(F))': 'nested-deep',
               'ONE': 'one-line configure(path, sync)', 'ONER': 'one-line configure(path, maxFileSize, sync)',
               'FLU': 'fluent format().sendToFile().sendToFile(limit)', 'FLUN': 'fluent with pipeline()',
-              'oD': 'rotating daily without size limit', 'or': 'rotating with 64 KiB limit (rotates)', 'F': 'no formatter'}
+              'oD': 'rotating daily without size limit', 'or': 'rotating with 64 KiB limit (rotates)', 'F': 'no formatter',
+              'FLUT': 'fluent: pipeline().filter(debug only).sendToFile(trace).end().sendToFile(app)',
+              'FLUC': 'fluent: pipeline().filterCategory(debug only).sendToFile(trace, limit).end().sendToFile(app)',
+              'FLUB': 'fluent: sendToFile(/dev/full).sendToFile(app)', 'onF': 'top-level filter rejecting the fatal message',
+              'olF': 'LevelFilter(warning) before the file sink', 'o(eF)(xR)': 'even/odd ids split over two files',
+              'oB(F)R': 'full device before a nested and a rotating sink', 'o(gF)F': 'debug-only trace file next to the main file'}
 CHUNK = 16384
 
 
@@ -52,7 +58,7 @@ def expand(msgs):
             out += [(t, int(sz))] * int(cnt)
         else:
             out.append((t, int(body)))
-    return out
+    return [('diwc'[i % 4] if t == 'm' else t, sz) for i, (t, sz) in enumerate(out)]
 
 
 def compress(ml):
@@ -82,7 +88,12 @@ def ranges(ids):
 
 def nsinks(tree):
     t = MODEL_TREE.get(tree, tree)
-    return sum(1 for c in t if c in 'FRrD')
+    return sum(1 for c in t if c in 'FRrDB')
+
+
+def broken_sinks(tree):
+    t = MODEL_TREE.get(tree, tree)
+    return [k for k, c in enumerate(c for c in t if c in 'FRrDB') if c == 'B']
 
 
 def read_sink(d, k, sc):
@@ -123,7 +134,10 @@ def run_impl(impl, sc):
         p = subprocess.run([impl, d, sc['tree'], sc['end'], sc['thread'], sc['msgs'], str(sc['fatalsize'])],
                            stdout=subprocess.DEVNULL, stderr=subprocess.DEVNULL, timeout=300)
         files, defects = [], []
+        brk = broken_sinks(sc['tree'])
         for k in range(nsinks(sc['tree'])):
+            if k in brk:
+                files.append('X'); continue
             ids, df = read_sink(d, k, sc)
             files.append(ranges(ids)); defects += ['s%d: %s' % (k, x) for x in df]
         return {'rc': p.returncode, 'files': ';'.join(files), 'defects': defects[:5]}
@@ -139,7 +153,9 @@ def model_line(sc):
 
 def scenarios(chk):
     rng, thorough = chk.rng, chk.tier == 'thorough'
-    kinds = ['oF', 'oR', 'oFR', 'o(F)', 'oF(oR(F))', 'ONE', 'ONER', 'FLU', 'FLUN', 'oD', 'or', 'F']
+    kinds = ['oF', 'oR', 'oFR', 'o(F)', 'oF(oR(F))', 'ONE', 'ONER', 'FLU', 'FLUN', 'oD', 'or', 'F',
+             # filters in front of file sinks (some reject the fatal message), a full device before healthy sinks
+             'FLUT', 'FLUC', 'FLUB', 'o(gF)F', 'onF', 'olF', 'o(eF)(xR)', 'oB(F)R']
     heavy_kinds = kinds if thorough else ['oF', 'oR', 'ONE', 'oF(oR(F))']
     out = []
 
@@ -152,22 +168,23 @@ def scenarios(chk):
                 if k == 2000 and size == 20480 and tree not in heavy_kinds:
                     continue
                 for thread in ('main', 'sec'):
-                    add(tree, 'fatal', thread, [('i', size)] * k, 13 if size == 10 else size, 'matrix')
+                    # message i has type "diwc"[i % 4], so that type filters split the history
+                    add(tree, 'fatal', thread, [('m', size)] * k, 13 if size == 10 else size, 'matrix')
                 if tree not in MODEL_TREE and k > 0:   # SIGKILL instead of qFatal: validates the buffering model
-                    add(tree, 'kill', 'main', [('i', size)] * k, 13, 'matrix-kill')
+                    add(tree, 'kill', 'main', [('m', size)] * k, 13, 'matrix-kill')
     # random trees and histories aimed at the case splits: buffer overflow (pre-flush), blocks above the
     # chunk size (bypass), exactly the chunk size, all message types, deeper nesting, several sinks
     def rtree(depth):
         s = ''
         for _ in range(rng.randint(1, 3)):
-            c = rng.choice('FRDoo(' if depth < 3 else 'FRDo')
+            c = rng.choice('FFRRDBoo((gnexly' if depth < 3 else 'FRDBognexly')
             s += ('(' + rtree(depth + 1) + ')') if c == '(' else c
         return s
     n_rand = 400 if thorough else 48
     for n in range(n_rand):
         tree = rtree(0)
-        if nsinks(tree) == 0 or nsinks(tree) > 4:
-            tree = 'o' + tree + 'F'
+        if nsinks(tree) - len(broken_sinks(tree)) == 0 or nsinks(tree) > 5:
+            tree = 'o' + tree[:12].replace('(', '').replace(')', '') + 'F'
         k = rng.choice([0, 1, 2, 5, 40, 300])
         ml = []
         for _ in range(k):
@@ -207,7 +224,8 @@ def run():
                    'harness/h_fatal.cpp, the log-file reader of checks/c11.py',
                    'modelled, not verified: QFile write buffering, the kernel page cache surviving abort(), Qt aborting after the handler returns']
     chk.assumptions = ['synchronous logger (own thread not running), library built without QTLOGGER_NO_THREAD',
-                       'every handler before a file sink lets the message pass (no filters: which records a sink is sent is C01/C16)',
+                       'filters are stateless predicates of the message (function, level, category, regexp filters); a duplicate filter is outside the model',
+                       'a file sink on a device that keeps nothing (/dev/full) has no file to check; it must not keep other sinks from being flushed',
                        'process death, not power loss: data handed to the kernel by write() counts as in the file',
                        'rotation (64 KiB scenarios) conserves records across the rotated files (C05); their concatenation is compared']
     chk.proof(vlib.proof_leg('Properties_C11', ['fatal']))
@@ -223,7 +241,7 @@ def run():
         res = list(ex.map(lambda s: run_impl(impl, s), scs))
     # oracle on the implementation's files (fatal scenarios only: the property speaks of a fatal message)
     fat = [i for i, s in enumerate(scs) if s['end'] == 'fatal']
-    _, verdicts, _ = vlib.run_lines(model, ['%d;%s' % (len(expand(scs[i]['msgs'])), res[i]['files']) for i in fat], ['oracle'])
+    _, verdicts, _ = vlib.run_lines(model, ['%s | %s' % (model_line(scs[i]), res[i]['files']) for i in fat], ['oracle'])
     verdict = dict(zip(fat, verdicts))
     falsified, dis, wrong_death = [], [], []
     for i, (s, r, m) in enumerate(zip(scs, res, out_m)):
@@ -238,7 +256,7 @@ def run():
 
     def fails(sc):
         r = run_impl(impl, sc)
-        _, v, _ = vlib.run_lines(model, ['%d;%s' % (len(expand(sc['msgs'])), r['files'])], ['oracle'])
+        _, v, _ = vlib.run_lines(model, ['%s | %s' % (model_line(sc), r['files'])], ['oracle'])
         return (sc['end'] == 'fatal' and (not v or v[0] != '1')) or bool(r['defects'])
 
     if falsified:
@@ -251,12 +269,16 @@ def run():
             sc['thread'] = 'main'
         r = run_impl(impl, sc)
         _, mo, _ = vlib.run_lines(model, [model_line(sc)])
+        _, ex, _ = vlib.run_lines(model, [model_line(sc)], ['expected'])
         k = len(ml)
-        chk.fail('after qFatal the files of the file sinks lack records: tree %s, %d preceding message(s), fatal from the %s thread: files hold [%s], expected %s in each'
-                 % (sc['tree'], k, sc['thread'], r['files'], ranges(list(range(k + 1)))),
+        chk.fail('after qFatal the files of the file sinks lack records that reached them: tree %s (%s), preceding messages %s, fatal from the %s thread: '
+                 'files hold [%s], the property demands [%s] (per file sink in depth-first order; X = sink on /dev/full)'
+                 % (sc['tree'], KIND_NAMES.get(sc['tree'], 'handler tree'), sc['msgs'], sc['thread'], r['files'], ex[0] if ex else '?'),
                  {'kind': 'records-missing-after-fatal', 'tree': sc['tree'], 'configuration': KIND_NAMES.get(sc['tree'], 'handler tree'),
                   'end': sc['end'], 'thread': sc['thread'], 'msgs': sc['msgs'], 'fatalsize': sc['fatalsize'],
-                  'records_in_files_per_sink': r['files'], 'expected_in_each_file': ranges(list(range(k + 1))),
+                  'records_in_files_per_sink': r['files'], 'expected_per_sink': ex[0] if ex else None,
+                  'tree_legend': 'F R r D file sinks, B file sink on /dev/full, g n e x l y filters (debug only, not fatal, even ids, odd ids, '
+                                 '>= warning, category rule debug only), o formatter, ( ) nested pipeline; message i has type diwc[i%4] for m',
                   'byte_defects': r['defects'], 'model_with_translated_source_predicts': mo[0] if mo else None,
                   'exit_status': r['rc'], 'falsified_scenarios': len(falsified),
                   'how': 'build/h_fatal <dir> <tree> <end> <thread> <msgs> <fatalsize>; see harness/h_fatal.cpp'},
@@ -284,12 +306,14 @@ def run():
             chk.broke('the header-only build (qtlogger.h) leaves different files than the library build in %d scenarios, e.g. %s'
                       % (len(bad_h), json.dumps({k: scs[i][k] for k in ('tree', 'end', 'thread', 'msgs', 'fatalsize')})),
                       dict(scs[i], kind='header-only-differs', library=res[i]['files']))
+    _, exp_all, _ = vlib.run_lines(model, [model_line(scs[i]) for i in fat], ['expected'])
+    not_reached = sum(1 for i, e in zip(fat, exp_all) if any(f != 'X' and not f.endswith(str(len(expand(scs[i]['msgs'])))) for f in e.split(';')))
     hits = [boundary_hits(s) for s in scs]
     nontriv = {(s['tree'], s['end'], s['thread'], s['msgs'], s['fatalsize']) for s in scs if s['end'] == 'fatal' and s['msgs'] != '-'}
     hist = lambda f: {str(k): sum(1 for s in scs if f(s) == k) for k in sorted({f(s) for s in scs}, key=str)}
     chk.cov.update({
         'evaluations': len(scs), 'distinct_nontrivial': len(nontriv),
-        'rule': 'child processes of the real library: the design matrix (12 configurations x {0,1,3,2000} preceding messages x '
+        'rule': 'child processes of the real library: the design matrix (20 configurations incl. filters that reject the fatal message and a full device before healthy sinks x {0,1,3,2000} preceding messages x '
                 '{10 B, 20 KiB} x fatal from main/secondary thread, plus the same killed by SIGKILL) and random handler trees/histories '
                 'with sizes around QFile\'s 16 KiB chunk; non-trivial = distinct fatal scenario with at least one preceding message',
         'disagreements_model_vs_impl': len(dis), 'oracle_evaluated_on_impl_files': len(fat), 'oracle_falsified': len(falsified),
@@ -298,6 +322,9 @@ def run():
         'by_preceding_messages': hist(lambda s: len(expand(s['msgs']))),
         'random_tree_sinks': hist(lambda s: nsinks(s['tree']) if s['origin'] == 'random' else 0),
         'random_tree_nested': sum(1 for s in scs if s['origin'] == 'random' and '(' in s['tree']),
+        'scenarios_with_filter': sum(1 for s in scs if set(MODEL_TREE.get(s['tree'], s['tree'])) & set('gnexly')),
+        'scenarios_with_full_device_sink': sum(1 for s in scs if 'B' in MODEL_TREE.get(s['tree'], s['tree'])),
+        'fatal_scenarios_where_some_sink_is_not_reached_by_the_fatal': not_reached,
         'boundary_hits': {'scenarios_with_buffer_overflow_flush': sum(1 for h in hits if h[0]),
                           'scenarios_with_block_above_chunk': sum(1 for h in hits if h[1]),
                           'scenarios_with_block_exactly_chunk': sum(1 for h in hits if h[2]),
@@ -325,6 +352,6 @@ def replay(path):
     print('scenario        ', json.dumps(sc))
     print('implementation  ', res)
     print('model           ', vlib.run_lines(model, [model_line(sc)])[1])
-    print('expected (fatal)', ranges(list(range(k + 1))), 'in every file')
-    print('oracle on impl  ', vlib.run_lines(model, ['%d;%s' % (k, res['files'])], ['oracle'])[1])
+    print('property demands', vlib.run_lines(model, [model_line(dict(sc, end='fatal'))], ['expected'])[1])
+    print('oracle on impl  ', vlib.run_lines(model, ['%s | %s' % (model_line(sc), res['files'])], ['oracle'])[1])
     return 0
